@@ -285,6 +285,11 @@ def apply_edit(rng, s, sp, kind):
         v = G.on_grid(rng, sp['dr'], 0.8, 1.4)
         s.diameter[L_(t)] = v
         sp['d'][t] = v
+        # a non-additive contact distance written into the sigma table belongs to its pair: assigning a diameter of one of its members
+        # re-derives it (the user writes it again), assigning the diameter of ANOTHER type must leave it alone
+        for key, val in (sp.get('sigma_table') or {}).items():
+            if t in key.split('|'):
+                s.diameter.sigma[L_(key.split('|')[0]), L_(key.split('|')[1])] = val
         return 'diameter[%s]=%r' % (t, v)
     if kind == 'kT':
         v = float(rng.choice([0.7, 1.0, 1.3, 2.0, 3.0]))
@@ -551,6 +556,11 @@ def run_sweep(ctx, case):
     rng = np.random.default_rng(case['seed'])
     sp = G.easy_spec(rng, rank=int(case['rank']), L=int(rng.choice([64, 128])), dr=0.1, eta_max=0.15)
     sp['labels'] = G.choose_labels(rng, sp['types'])
+    if len(sp['types']) >= 2 and case['seed'] % 3 != 1:
+        # a non-additive cross contact distance, set once at the start of the sweep
+        a, b = sp['types'][0], sp['types'][1]
+        sp['sigma_table'] = {G.pk(a, b): float(G.sigma_of(sp, a, b) + sp['dr'])}
+        ctx.hook('sweep.with_non_additive_sigma')
     s = G.build(sp)
     opts = {'disp': False, 'maxiter': 40, 'fatol': 1e-10, 'line_search': str(rng.choice(['armijo', 'wolfe']))}
     steps = []
@@ -563,6 +573,8 @@ def run_sweep(ctx, case):
     for step in range(int(case['nsteps']) + 1):
         if step > 0:
             kind = str(rng.choice(EDITS))
+            if sp.get('sigma_table') and rng.random() < 0.4:
+                kind = 'diameter'               # sweeps over a diameter while another pair keeps its non-additive contact distance
             if cont is not None:
                 state, sp_before = copy.deepcopy(rng.bit_generator.state), copy.deepcopy(sp)
             steps.append(apply_edit(rng, s, sp, kind))
